@@ -62,6 +62,19 @@ def _roots(a):
     return roots, idx
 
 
+def _simple(e, depth=0):
+    """constants, skolem constants and constructor terms over such (no array reads / ite / function applications):
+    the candidate pool for bound variables of non-index sorts must not feed back on itself"""
+    if not z3.is_app(e):
+        return False
+    k = e.decl().kind()
+    if e.num_args() == 0:
+        return True
+    if k == z3.Z3_OP_DT_CONSTRUCTOR or k in (z3.Z3_OP_ADD, z3.Z3_OP_SUB, z3.Z3_OP_MUL, z3.Z3_OP_UMINUS):
+        return depth < 3 and all(_simple(c, depth + 1) for c in e.children())
+    return False
+
+
 class Instantiator:
     def __init__(self, formulas):
         self.ctx = _Ctx()
@@ -103,7 +116,7 @@ class Instantiator:
                     for j in idx:
                         if not self.ctx.has_var(j):
                             self.reads.setdefault(r.get_id(), {}).setdefault(j.get_id(), j)
-        if e.sort().kind() not in (z3.Z3_BOOL_SORT, z3.Z3_INT_SORT, z3.Z3_REAL_SORT, z3.Z3_ARRAY_SORT) and not self.ctx.has_var(e):
+        if e.sort().kind() not in (z3.Z3_BOOL_SORT, z3.Z3_INT_SORT, z3.Z3_REAL_SORT, z3.Z3_ARRAY_SORT) and not self.ctx.has_var(e) and _simple(e):
             self.sort_terms.setdefault(e.sort().name(), {}).setdefault(k, e)
         for c in e.children():
             self.scan(c)
